@@ -359,6 +359,72 @@ def root_loaded(ctx, rule='C01.root-loaded'):
     return res
 
 
+def carriers(ctx, rule='C01.carriers'):
+    """what a read hands out is the stored pair, the right way round: every construction of the public key/value carrier takes the first component of its source
+    (a leaf `Kv(k, v)`, a tuple) as the key and the second as the value; the constructor stores them in the fields of those names; `key()` / `value()` / `name()`
+    return the field of their own name"""
+    res = []
+    F = ctx.facts
+    n = 0
+    kv = F.adt('KVPair')
+    if not kv:
+        return [unresolved(rule, 'type KVPair')]
+    ctor = None
+    for fn in sorted(F.fns, key=lambda f: f.path):
+        if fn.is_test_fn() if hasattr(fn, 'is_test_fn') else False:
+            continue
+        du = None
+        for bb, t, c in calls_named(F, fn, 'KVPair::new'):
+            r = c.get('resolved') or c
+            ctor = F.by_path.get(r['path']) or F.by_path.get(c['path']) or ctor
+            du = du or ctx.du(fn)
+            a = [du.sym(x) for x in t['args']]
+            n += 1
+            good = len(a) == 2 and a[0][0] == 'field' and a[1][0] == 'field' and a[0][1] == a[1][1] and a[0][2][:-1] == a[1][2][:-1] and a[0][2][-1] == '0' and a[1][2][-1] == '1'
+            good = good or (len(a) == 2 and a[0][0] == 'arg' and a[1][0] == 'arg' and a[0][1] < a[1][1])
+            if good:
+                res.append(ok(rule, '%s builds the pair at %s from (.0, .1) of one source, in that order' % (fn.qual, fn.loc(bb)), sites=1))
+            else:
+                import c16
+                res.append(bad(rule, '%s | pair not built as (first, second) of its source' % fn.qual,
+                               '%s builds a key/value pair at %s from `%s` and `%s`: the key must be the first and the value the second component of one and the same source'
+                               % (fn.qual, fn.loc(bb), c16._fmt(a[0])[:80] if a else '?', c16._fmt(a[1])[:80] if len(a) > 1 else '?'), where=fn.loc(bb)))
+    # the constructor and the accessors
+    for adt_name, table in (('KVPair', (('key', 1), ('value', 2))), ('BucketName', (('name', 1),))):
+        for g in F.fns:
+            if g.kind == 'Closure' or not g.self_adt or last_seg(g.self_adt) != adt_name:
+                continue
+            if g.name == 'new':
+                for bb in sorted(g.reachable_blocks()):
+                    for si, st in enumerate(g.blocks[bb]['stmts']):
+                        if st['k'] == 'assign' and st['rv']['k'] == 'agg' and st['rv'].get('ak') == 'adt' and last_seg(st['rv'].get('adt') or '') == adt_name:
+                            names = st['rv'].get('fields') or []
+                            du = ctx.du(g)
+                            for (fld, argi) in table:
+                                if fld in names:
+                                    n += 1
+                                    e = du.sym(st['rv']['ops'][names.index(fld)])
+                                    if e == ('arg', argi):
+                                        res.append(ok(rule, '%s stores its %s parameter in field `%s`' % (g.qual, ['', 'first', 'second'][argi], fld), sites=1))
+                                    else:
+                                        res.append(bad(rule, '%s | field %s not from parameter %d' % (g.qual, fld, argi),
+                                                       '%s stores something other than its %s parameter in field `%s`' % (g.qual, ['', 'first', 'second'][argi], fld), where=g.loc(bb, si)))
+            for (fld, _) in table:
+                if g.name == fld and g.argc == 1 and g.eff_pub:
+                    n += 1
+                    e = ctx.du(g).sym({'k': 'move', 'p': {'l': 0, 'pr': []}})
+                    inner = e[2][0] if e[0] == 'call' and last_seg(strip_generics(e[1])) in ('as_ref', 'deref', 'as_slice', 'borrow') and e[2] else e
+                    if inner[0] == 'field' and inner[1] == ('arg', 1) and inner[2] == (fld,):
+                        res.append(ok(rule, '%s returns the field of its own name' % g.qual, sites=1))
+                    else:
+                        import c16
+                        res.append(bad(rule, '%s | does not return its own field' % g.qual, '%s returns `%s`, not `self.%s`' % (g.qual, c16._fmt(e)[:100], fld), where='%s:%d' % (g.file, g.line)))
+    f = floor(rule, 'carrier constructions, constructor fields and accessors', n, 8)
+    if f:
+        res.append(f)
+    return res
+
+
 def _calls_to(F, fn, target):
     from util import calls_to_fn
     return calls_to_fn(F, fn, target)
@@ -386,6 +452,7 @@ def run(ctx, tier):
     results += create_refuses_existing(ctx)
     results += rebalance_gates(ctx)
     results += root_loaded(ctx)
+    results += carriers(ctx)
     # the clauses of the properties C01 is built on
     results += c07.exact_match_used(ctx, rule='C01.exact-match-used')
     results += c07.position_from_search(ctx, rule='C01.position-from-search')
@@ -405,6 +472,7 @@ def run(ctx, tier):
     results += c08.index_bounds(ctx, rule='C01.index-bounds')
     results += c08.stack_never_emptied(ctx, rule='C01.stack-never-emptied')
     results += c08.index_agreement(ctx, rule='C01.index-agreement')
+    results += c08.key_order(ctx, rule='C01.key-order')
     results += c05.serialiser_total(ctx, rule='C01.serialiser-total')
     results += c05.reader_writer_tables(ctx, rule='C01.reader-writer-tables')
     results += c05.page_kinds(ctx, rule='C01.page-kinds')
